@@ -13,6 +13,10 @@
   A session may end at any time (server closes the stream, non-object frame, connect error): what it had
   decoded but the watcher had not taken is re-requested by the retry from `b` — nothing taken is discarded.
   Status / bookmark frames are skipped by the session and do not appear here.
+  An event may also be LOST: both buffers of the pipeline are written with a non-blocking send
+  (watch_session.go / watcher.go: `default:` — "output buffer full; event missed"), and the resume version moves
+  past it. Content-wise a lost change is one the cache never sees: label `drop` skips `hist[a]`; the ghost
+  `lost` remembers the skipped indices since the last list.
 -/
 import KcacheModel.FSubWorld
 namespace KC
@@ -31,12 +35,16 @@ structure CW (K O : Type) where
   stopped : Option StopKind := none
   /-- ghost: everything distributed to subscribers -/
   published : List (Ev O) := []
+  /-- ghost: indices of server changes that overflowed a buffer since the last list (never applied) -/
+  lost : List Nat := []
 
 inductive CLabel (O : Type)
   | serverChange (e : Ev O)
   | decode
   | take
   | apply
+  /-- the next change overflows a buffer of the watch pipeline and is lost -/
+  | drop
   | sessEnd
   | retry
   /-- a list result arrives: snapshot of the server at index `j` -/
@@ -64,6 +72,7 @@ def CW.enabled (w : CW K O) : CLabel O → Prop
   | .decode => w.running = true ∧ w.live = true ∧ w.c < w.hist.length
   | .take => w.running = true ∧ w.b < w.c
   | .apply => w.running = true ∧ w.a < w.b
+  | .drop => w.running = true ∧ w.a < w.b
   | .sessEnd => w.live = true
   | .retry => w.running = true ∧ w.live = false ∧ w.ready = true
   | .listApplied j plist => w.running = true ∧ j ≤ w.hist.length ∧ Snapshot key ver plist (w.state key ver j)
@@ -80,12 +89,13 @@ def CW.step (w : CW K O) : CLabel O → CW K O
       let r := doUpdate key ver acc w.items e.t e.obj
       { w with items := r.1, a := w.a + 1, published := w.published ++ r.2 }
     | none => w
+  | .drop => { w with a := w.a + 1, lost := w.a :: w.lost }
   | .sessEnd => { w with live := false, c := w.b }
   | .retry => { w with live := true, c := w.b }
   | .listApplied j plist =>
     let r := doSync key ver acc w.items plist
     { w with items := r.1, ready := true, live := true, a := j, b := j, c := j,
-             published := if w.ready then w.published ++ r.2 else w.published }
+             published := if w.ready then w.published ++ r.2 else w.published, lost := [] }
   | .listFail k => { w with stopped := some k, live := false }
   | .close => { w with stopped := some (w.stopped.getD .closed), live := false }
 
